@@ -86,6 +86,8 @@ theorem dispatch_did {e : Editor D L} {ev : KeyEvent} {sh : Shared D L} {st : St
 /-- **the auto-commit that ends a step**: the leading intervals of the conversion of the edited state `mid`
     were committed (`commitBuf`) and their `n` symbols removed from the front of the buffer -/
 structure AutoCommit (env : Env D L) (mid : Shared D L) (e' : Editor D L) (n : Nat) : Prop where
+  /-- it runs only when the buffer is over the limit -/
+  over : mid.options.autoCommitThreshold < mid.com.len
   cut : mid.com.inner.removeFront n = .ok e'.shared.com.inner
   take : ∃ ivs, Shared.conversion env mid = .ok ivs ∧
     Shared.autoCommitTake mid.com.len mid.options.autoCommitThreshold ivs [] 0 = .ok (e'.shared.commitBuf, n)
@@ -98,9 +100,13 @@ theorem tail_of_tryAutoCommit {c : Prop} [Decidable c] {mid sh2 : Shared D L} {e
     (h1 : (if c then Shared.tryAutoCommit env mid else .ok mid) = .ok sh2)
     (hcom : e'.shared.com = sh2.com) (hbuf : e'.shared.commitBuf = sh2.commitBuf) : Tail env mid e' := by
   split at h1
-  · rcases tryAutoCommit_cases env mid sh2 h1 with rfl | ⟨n, hcut, _, _, _, ivs, buf, hconv, htake, hb⟩
-    · exact .inl (by rw [hcom])
-    · exact .inr ⟨n, ⟨by rw [hcom]; exact hcut, ivs, hconv, by rw [hbuf, hb]; exact htake⟩⟩
+  · by_cases hle : mid.com.len ≤ mid.options.autoCommitThreshold
+    · unfold Shared.tryAutoCommit at h1
+      simp only [hle, if_true] at h1
+      cases h1; exact .inl (by rw [hcom])
+    · rcases tryAutoCommit_cases env mid sh2 h1 with rfl | ⟨n, hcut, _, _, _, ivs, buf, hconv, htake, hb⟩
+      · exact .inl (by rw [hcom])
+      · exact .inr ⟨n, ⟨by omega, by rw [hcom]; exact hcut, ivs, hconv, by rw [hbuf, hb]; exact htake⟩⟩
   · cases h1; exact .inl (by rw [hcom])
 
 /-- **every public operation = one edit of a kind in `opKinds`, then at most one auto-commit**; the edited state
